@@ -9,7 +9,11 @@ use crate::zobrist::ZobristHasher;
 use log::{error, info};
 use std::io::{self, BufRead};
 use std::process;
+#[cfg(feature = "verif_loom")]
+use crate::sched::{mpsc, thread};
+#[cfg(not(feature = "verif_loom"))]
 use std::sync::mpsc;
+#[cfg(not(feature = "verif_loom"))]
 use std::thread;
 use std::time::{Duration, Instant};
 
@@ -65,6 +69,8 @@ pub fn play_game_uci() {
             "quit" => process::exit(1),
             _ => error!("Unrecognized command: {}", buffer),
         };
+        #[cfg(feature = "verif")]
+        crate::verif::loop_state(&buffer, &board, &draw_table);
     }
 }
 
@@ -324,6 +330,10 @@ fn send_best_move_to_gui(board: &BoardState) {
 }
 
 pub fn send_to_gui(message: &str) {
+    #[cfg(feature = "verif")]
+    if crate::verif::capture(message) {
+        return;
+    }
     println!("{}", message);
     info!("ENGINE >> {}", message);
 }
@@ -335,6 +345,46 @@ pub fn read_from_gui() -> String {
     buffer = clean_input(&buffer);
     info!("ENGINE << {}", buffer);
     buffer
+}
+
+// Verification hooks: reach the private functions of this module
+#[cfg(feature = "verif")]
+#[allow(dead_code)]
+pub fn verif_play_out_position(
+    commands: &[&str],
+    zobrist_hasher: &ZobristHasher,
+    draw_table: &mut DrawTable,
+) -> BoardState {
+    play_out_position(commands, zobrist_hasher, draw_table)
+}
+
+#[cfg(feature = "verif")]
+#[allow(dead_code)]
+pub fn verif_make_move(board: &mut BoardState, player_move: &str, zobrist_hasher: &ZobristHasher) {
+    make_move(board, player_move, zobrist_hasher)
+}
+
+#[cfg(feature = "verif")]
+#[allow(dead_code)]
+pub fn verif_parse_go_command(commands: &[&str]) -> GameTime {
+    parse_go_command(commands)
+}
+
+#[cfg(feature = "verif")]
+#[allow(dead_code)]
+pub fn verif_find_and_play_best_move(
+    commands: &[&str],
+    board: &mut BoardState,
+    start: Instant,
+    draw_table: &mut DrawTable,
+) -> BoardState {
+    find_and_play_best_move(commands, board, start, draw_table)
+}
+
+#[cfg(feature = "verif")]
+#[allow(dead_code)]
+pub fn verif_send_best_move_to_gui(board: &BoardState) {
+    send_best_move_to_gui(board)
 }
 
 #[cfg(test)]
